@@ -3,6 +3,7 @@ import FlacVerif.Model.Md5
 import FlacVerif.Model.Component
 import FlacVerif.Model.Encoder
 import FlacVerif.Model.Encode
+import FlacVerif.Model.RepoParser
 import FlacVerif.Driver.Proto
 namespace FlacVerif.Drv
 open FlacVerif Proto
@@ -146,6 +147,16 @@ def streamRecord (r : Record) : List Verdict × List String := Id.run do
       vs := check "c08.streamcount" (toString ((ms.count).getD 0)) (r.get "impl_count") :: vs
       vs := check "c08.streambits" (toString b.length) (r.get "impl_count") :: vs
     vs := check "c15.verify" "1" (r.get "impl_verify") :: vs
+    -- the mirror of the crate's own parser on the real bytes: accepts, and builds the same tree as
+    -- the strict RFC decoder recovered
+    match Repo.parseStream bytes with
+    | .ok ps =>
+      vs := check "c15.modelparse" (toString ((ps.toStream?.map fun t => decide (t = ms)).getD false)) "true" :: vs
+      match Repo.decodeAll false ps.frames with
+      | .ok audio => vs := check "c15.modeldecode" (toString (audio == pcm)) "true" :: vs
+      | .panic site => vs := .diff "c15.modeldecode" "decodes" s!"panic {site}" :: vs
+    | .error _ => vs := .diff "c15.modelparse" "accepted" "parse error" :: vs
+    | .panic site => vs := .diff "c15.modelparse" "accepted" s!"panic {site}" :: vs
     -- functional view: the decision logic replayed on the logged oracle (single-thread records only)
     if r.get "mode" = "st" ∧ (r.get? "olog").isSome then
       let mut off := 42
